@@ -111,14 +111,27 @@ func c19R1(c *Ctx) {
 			c.Require("C19.R1", fmt.Sprintf("constant-count flavor #%d only while a slot is left", nConst), fn, f.stmt, fmt.Sprintf("%s >= %d", rem.Name(), cv), nil)
 			// paired decrement in the same block
 			dec := int64(0)
+			// the block of the flavor statement; plain nested blocks ({ … } directly inside a block)
+			// are transparent
 			var blk *ast.BlockStmt
-			for _, nd := range pathTo(fn.Decl.Body, f.stmt) {
-				if b, ok := nd.(*ast.BlockStmt); ok {
-					blk = b
+			path := pathTo(fn.Decl.Body, f.stmt)
+			var stmts []ast.Stmt
+			for i := len(path) - 1; i >= 0; i-- {
+				b, ok := path[i].(*ast.BlockStmt)
+				if !ok {
+					continue
 				}
+				blk = b
+				stmts = append(stmts, b.List...)
+				if i > 0 {
+					if _, parentIsBlock := path[i-1].(*ast.BlockStmt); parentIsBlock {
+						continue
+					}
+				}
+				break
 			}
 			if blk != nil {
-				for _, s := range blk.List {
+				for _, s := range stmts {
 					switch t := s.(type) {
 					case *ast.IncDecStmt:
 						if identObj(info, t.X) == rem && t.Tok == token.DEC {
